@@ -1,4 +1,694 @@
+/-
+  C01 — Mesh slicing returns exactly the part of the surface in front of the plane.
+
+  Property theorems about the per-face kernel `PW.Slicing.sliceFacePos` (what one input face contributes to the
+  output).  PW/Props/C02.lean proves that the array-level assembly `sliceMesh` returns exactly the kernel's
+  triangles, face by face, so these laws hold for the arrays `slice_triangles_by_plane` returns.
+
+  Conventions: `d(v) = n·(v − o)` (the offset the code computes, in units of |n|); `tol ≥ 0` is the merge
+  tolerance; *front* `d > tol`, *behind* `d < −tol`, *on* otherwise.  Everything is over an arbitrary linearly
+  ordered field `K` and holds for every `eps` (the zero-denominator replacement), every plane (`n = 0` included)
+  and every face (degenerate ones included), unless a hypothesis says otherwise.
+-/
 import PW.Model.Slicing
 import PW.Gen.Slicer
+import PW.Lemmas.Slicing
+
+set_option linter.unusedSectionVars false
+
 namespace PW.C01
+
+open PW.Slicing
+
+variable {K : Type} [Field K] [LinearOrder K] [IsStrictOrderedRing K]
+
+/-! ## 0. what the model takes from the source (regenerated on every run) -/
+
+/-- the merge tolerance is the `1e-8` the property names; front ↦ −1, behind ↦ +1; zero denominators ↦ `1e-12`. -/
+theorem C01_tol_value :
+    PW.Gen.Slicer.tolMerge = (1 : Rat) / 100000000 ∧ PW.Gen.Slicer.denomGuard = (1 : Rat) / 1000000000000 ∧
+    PW.Gen.Slicer.signBehind = 1 ∧ PW.Gen.Slicer.signFront = -1 := by
+  exact ⟨rfl, rfl, rfl, rfl⟩
+
+/-- the model's `vsign` uses exactly the generated sign values -/
+theorem C01_sign_convention (tol d : K) :
+    (tol < d → vsign tol d = PW.Gen.Slicer.signFront) ∧
+    (¬ tol < d → d < -tol → vsign tol d = PW.Gen.Slicer.signBehind) := by
+  unfold vsign
+  constructor
+  · intro h; rw [if_pos h]; decide
+  · intro h1 h2; rw [if_neg h1, if_pos h2]; decide
+
+/-- the `% 3` column offsets, the `quads_to_tris` split and the case predicates / edge-parameter expression of the
+    source are the ones the model `sliceFacePos` / `classifyFace` / `edgePoint` was written from. -/
+theorem C01_tables :
+    PW.Gen.Slicer.quadVertOffsets = [1, 2] ∧ PW.Gen.Slicer.quadPointOffsets = [2, 0] ∧
+    PW.Gen.Slicer.triPointOffsets = [0, 2] ∧
+    PW.Gen.Slicer.quadsToTrisEven = [0, 1, 2] ∧ PW.Gen.Slicer.quadsToTrisOdd = [0, 2, 3] ∧
+    PW.Gen.Slicer.onedgeSrc = "np.logical_and(np.logical_and(signs_asum >= 2, np.abs(signs_sum) <= 1), mask)" ∧
+    PW.Gen.Slicer.insideSrc = "np.logical_or(signs_sum == -signs_asum, ~mask)" ∧
+    PW.Gen.Slicer.onedgeQuadSrc = "np.logical_and(onedge, signs_sum < 0).nonzero()[0]" ∧
+    PW.Gen.Slicer.onedgeTriSrc = "np.logical_and(onedge, signs_sum >= 0).nonzero()[0]" ∧
+    PW.Gen.Slicer.distSrc = "np.clip(np.divide(num, denom), 0.0, 1.0)" := by
+  refine ⟨by decide, by decide, by decide, by decide, by decide, by decide, by decide, by decide, by decide, by decide⟩
+
+/-! ## 1. the case table -/
+
+def isCut : FaceKind → Bool
+  | .quad _ => true
+  | .tri _ => true
+  | _ => false
+
+/-- some corner behind / in front, in the slicer's sign convention -/
+abbrev behindS (s : T3 Int) : Prop := s.a = 1 ∨ s.b = 1 ∨ s.c = 1
+abbrev frontS (s : T3 Int) : Prop := s.a = -1 ∨ s.b = -1 ∨ s.c = -1
+
+/-- what the column stored in a cut kind means -/
+def kindSpec (s : T3 Int) : FaceKind → Prop
+  | .quad k => k < 3 ∧ s.get k = 1 ∧ s.get (k + 1) = -1 ∧ s.get (k + 2) = -1
+  | .tri k => k < 3 ∧ s.get k = -1 ∧ s.get (k + 1) ≠ -1 ∧ s.get (k + 2) ≠ -1 ∧
+      (s.get (k + 1) = 1 ∨ s.get (k + 2) = 1)
+  | _ => True
+
+instance (s : T3 Int) (k : FaceKind) : Decidable (kindSpec s k) := by
+  cases k <;> unfold kindSpec <;> infer_instance
+
+/-- the four clauses of the case table for one sign pattern -/
+def CaseTable (s : T3 Int) (sel : Bool) : Prop :=
+  (classifyFace s sel = .keep ↔ (sel = false ∨ ¬ behindS s)) ∧
+  (classifyFace s sel = .drop ↔ (sel = true ∧ behindS s ∧ ¬ frontS s)) ∧
+  (isCut (classifyFace s sel) = true ↔ (sel = true ∧ behindS s ∧ frontS s)) ∧
+  kindSpec s (classifyFace s sel)
+
+instance (s : T3 Int) (sel : Bool) : Decidable (CaseTable s sel) := by
+  unfold CaseTable; infer_instance
+
+/-- all 27 sign patterns, selected or not: a face is *kept* iff unselected or no corner behind; *dropped* iff
+    selected, some corner behind, none in front; otherwise *cut* — into a quad when exactly one corner is behind
+    and the other two in front (column = the behind corner), else into a triangle (column = the unique front
+    corner, at least one other corner behind). -/
+theorem C01_case_table_signs :
+    ∀ a ∈ [(-1 : Int), 0, 1], ∀ b ∈ [(-1 : Int), 0, 1], ∀ c ∈ [(-1 : Int), 0, 1], ∀ sel ∈ [true, false],
+      CaseTable ⟨a, b, c⟩ sel := by
+  decide
+
+/-- the same, for the signs of actual plane offsets. -/
+theorem C01_case_table (tol : K) (d : T3 K) (sel : Bool) : CaseTable (d.map (vsign tol)) sel := by
+  have mem : ∀ x : K, vsign tol x ∈ [(-1 : Int), 0, 1] := by
+    intro x; rcases vsign_mem tol x with h | h | h <;> simp [h]
+  have hs : ∀ sel : Bool, sel ∈ [true, false] := by intro b; cases b <;> simp
+  exact C01_case_table_signs _ (mem d.a) _ (mem d.b) _ (mem d.c) sel (hs sel)
+
+/-! ## 2. what the kernel returns in each case -/
+
+/-- faces wholly on or in front of the plane, and faces excluded by `faces_to_slice`, are returned with their
+    original three corners, in order; selected faces with a corner behind and none in front are dropped. -/
+theorem C01_kept_and_dropped (tol eps : K) (ht : 0 ≤ tol) (o n : V3 K) (p : T3 (V3 K)) (sel : Bool) :
+    let d := fun v => offset o n v
+    ((sel = false ∨ (-tol ≤ d p.a ∧ -tol ≤ d p.b ∧ -tol ≤ d p.c)) → sliceFacePos tol eps o n p sel = [p]) ∧
+    ((sel = true ∧ (d p.a < -tol ∨ d p.b < -tol ∨ d p.c < -tol) ∧ d p.a ≤ tol ∧ d p.b ≤ tol ∧ d p.c ≤ tol) →
+      sliceFacePos tol eps o n p sel = []) := by
+  intro d
+  have tbl := C01_case_table tol (p.map d) sel
+  simp only [CaseTable, behindS, frontS, T3.map] at tbl
+  obtain ⟨hk, hd, _, _⟩ := tbl
+  constructor
+  · intro h
+    have : classifyFace (p.map fun v => vsign tol (offset o n v)) sel = .keep := by
+      apply hk.mpr
+      rcases h with h | ⟨ha, hb, hc⟩
+      · left; exact h
+      · right
+        rintro (h1 | h1 | h1)
+        · have := (vsign_behind_iff ht _).mp h1; linarith
+        · have := (vsign_behind_iff ht _).mp h1; linarith
+        · have := (vsign_behind_iff ht _).mp h1; linarith
+    unfold sliceFacePos
+    simp only [this]
+  · rintro ⟨hs, hb, ha1, hb1, hc1⟩
+    have : classifyFace (p.map fun v => vsign tol (offset o n v)) sel = .drop := by
+      apply hd.mpr
+      refine ⟨hs, ?_, ?_⟩
+      · rcases hb with h | h | h
+        · left; exact (vsign_behind_iff ht _).mpr h
+        · right; left; exact (vsign_behind_iff ht _).mpr h
+        · right; right; exact (vsign_behind_iff ht _).mpr h
+      · rintro (h1 | h1 | h1)
+        · have := (vsign_front_iff tol _).mp h1; linarith
+        · have := (vsign_front_iff tol _).mp h1; linarith
+        · have := (vsign_front_iff tol _).mp h1; linarith
+    unfold sliceFacePos
+    simp only [this]
+
+/-! ## 3. no output vertex lies outside the input face it came from -/
+
+/-- `q` is a convex combination of the corners of `p` -/
+def InFace (p : T3 (V3 K)) (q : V3 K) : Prop :=
+  ∃ α β γ : K, 0 ≤ α ∧ 0 ≤ β ∧ 0 ≤ γ ∧ α + β + γ = 1 ∧
+    q = V3.smul α p.a + V3.smul β p.b + V3.smul γ p.c
+
+theorem inFace_get (p : T3 (V3 K)) (i : Nat) : InFace p (p.get i) := by
+  rcases T3.get_cases p i with ⟨_, h, _, _⟩ | ⟨_, h, _, _⟩ | ⟨_, h, _, _⟩ <;> rw [h]
+  · exact ⟨1, 0, 0, by norm_num, by norm_num, by norm_num, by norm_num, by ext <;> simp⟩
+  · exact ⟨0, 1, 0, by norm_num, by norm_num, by norm_num, by norm_num, by ext <;> simp⟩
+  · exact ⟨0, 0, 1, by norm_num, by norm_num, by norm_num, by norm_num, by ext <;> simp⟩
+
+theorem inFace_edge (eps : K) (o n : V3 K) (p : T3 (V3 K)) (i : Nat) :
+    InFace p ((intPoints eps o n p).get i) := by
+  rw [intPoints_get, edgePoint_eq]
+  obtain ⟨h0, h1⟩ := edgeParam_mem eps o n (p.get i) (p.get (i + 1))
+  generalize edgeParam eps o n (p.get i) (p.get (i + 1)) = t at h0 h1
+  rcases T3.get_cases p i with ⟨_, ha, hb, _⟩ | ⟨_, ha, hb, _⟩ | ⟨_, ha, hb, _⟩ <;> rw [ha, hb]
+  · exact ⟨1 - t, t, 0, by linarith, h0, le_refl 0, by ring, by ext <;> simp <;> ring⟩
+  · exact ⟨0, 1 - t, t, le_refl 0, by linarith, h0, by ring, by ext <;> simp <;> ring⟩
+  · exact ⟨t, 0, 1 - t, h0, le_refl 0, by linarith, by ring, by ext <;> simp <;> ring⟩
+
+/-- **no output vertex lies outside the input face it came from** — for every face, plane, tolerance, mask. -/
+theorem C01_out_in_face (tol eps : K) (o n : V3 K) (p : T3 (V3 K)) (sel : Bool) :
+    ∀ t ∈ sliceFacePos tol eps o n p sel, InFace p t.a ∧ InFace p t.b ∧ InFace p t.c := by
+  intro t ht
+  unfold sliceFacePos at ht
+  simp only at ht
+  split at ht
+  · simp only [List.mem_singleton] at ht
+    rw [ht]
+    exact ⟨inFace_get p 0, inFace_get p 1, inFace_get p 2⟩
+  · simp at ht
+  · simp only [List.mem_cons, List.not_mem_nil, or_false] at ht
+    rcases ht with rfl | rfl
+    · exact ⟨inFace_get p _, inFace_get p _, inFace_edge eps o n p _⟩
+    · exact ⟨inFace_get p _, inFace_edge eps o n p _, inFace_edge eps o n p _⟩
+  · simp only [List.mem_singleton] at ht
+    rw [ht]
+    exact ⟨inFace_get p _, inFace_edge eps o n p _, inFace_edge eps o n p _⟩
+
+
+/-! ## 4. no output vertex lies behind the plane by more than the tolerance -/
+
+theorem T3.get_add_three {α : Type} (t : T3 α) (i : Nat) : t.get (i + 3) = t.get i := by
+  unfold T3.get
+  have : (i + 3) % 3 = i % 3 := by omega
+  rw [this]
+
+/-- an edge used by a cut joins a corner in front (`0 < dF`) with a corner of smaller offset `dY`; whichever way it
+    is traversed, the new vertex has offset `max dY 0`: it is *on the plane* when `Y` is behind it, and it *is* `Y`
+    when `Y` is within tolerance on the front side (the clamp). -/
+theorem edge_offset_FY (eps : K) (o n F Y : V3 K) (hF : 0 < offset o n F) (hY : offset o n Y < offset o n F) :
+    offset o n (edgePoint eps o n F Y) = max (offset o n Y) 0 := by
+  rw [edgePoint_eq, offset_lerp, edgeParam_of_ne eps o n F Y (ne_of_gt hY)]
+  rcases lt_or_ge (offset o n Y) 0 with h | h
+  · obtain ⟨e, _, _, hz⟩ := edgeParam_cross (da := offset o n F) (db := offset o n Y) (Or.inl ⟨hF, h⟩)
+    rw [e, hz, max_eq_right h.le]
+  · rw [edgeParam_to_on hF h hY, max_eq_left h]; ring
+
+theorem edge_offset_YF (eps : K) (o n F Y : V3 K) (hF : 0 < offset o n F) (hY : offset o n Y < offset o n F) :
+    offset o n (edgePoint eps o n Y F) = max (offset o n Y) 0 := by
+  rw [edgePoint_eq, offset_lerp, edgeParam_of_ne eps o n Y F (ne_of_lt hY)]
+  rcases lt_or_ge (offset o n Y) 0 with h | h
+  · obtain ⟨e, _, _, hz⟩ := edgeParam_cross (da := offset o n Y) (db := offset o n F) (Or.inr ⟨h, hF⟩)
+    rw [e, hz, max_eq_right h.le]
+  · rw [edgeParam_from_on h hY, max_eq_left h]; ring
+
+/-- sign facts of a face, read off the classification -/
+theorem kind_offsets (tol : K) (ht : 0 ≤ tol) (o n : V3 K) (p : T3 (V3 K)) (sel : Bool) :
+    let d := fun v => offset o n v
+    match classifyFace (p.map fun v => vsign tol (offset o n v)) sel with
+    | .quad k => d (p.get k) < -tol ∧ tol < d (p.get (k + 1)) ∧ tol < d (p.get (k + 2))
+    | .tri k => tol < d (p.get k) ∧ d (p.get (k + 1)) ≤ tol ∧ d (p.get (k + 2)) ≤ tol
+    | .keep => sel = false ∨ (-tol ≤ d p.a ∧ -tol ≤ d p.b ∧ -tol ≤ d p.c)
+    | .drop => True := by
+  intro d
+  have tbl := C01_case_table tol (p.map d) sel
+  have hmap : (p.map d).map (vsign tol) = p.map fun v => vsign tol (offset o n v) := rfl
+  rw [hmap] at tbl
+  obtain ⟨hk, _, _, hspec⟩ := tbl
+  split
+  · rename_i k hq
+    rw [hq] at hspec
+    obtain ⟨_, h0, h1, h2⟩ := hspec
+    rw [T3.get_map] at h0 h1 h2
+    exact ⟨(vsign_behind_iff ht _).mp h0, (vsign_front_iff tol _).mp h1, (vsign_front_iff tol _).mp h2⟩
+  · rename_i k hq
+    rw [hq] at hspec
+    obtain ⟨_, h0, h1, h2, _⟩ := hspec
+    rw [T3.get_map] at h0 h1 h2
+    refine ⟨(vsign_front_iff tol _).mp h0, ?_, ?_⟩
+    · by_contra hc; exact h1 ((vsign_front_iff tol _).mpr (not_le.mp hc))
+    · by_contra hc; exact h2 ((vsign_front_iff tol _).mpr (not_le.mp hc))
+  · rename_i hq
+    rcases hk.mp hq with h | h
+    · left; exact h
+    · right
+      simp only [behindS, T3.map, not_or] at h
+      obtain ⟨ha, hb, hc⟩ := h
+      refine ⟨?_, ?_, ?_⟩
+      · by_contra hx; exact ha ((vsign_behind_iff ht _).mpr (not_le.mp hx))
+      · by_contra hx; exact hb ((vsign_behind_iff ht _).mpr (not_le.mp hx))
+      · by_contra hx; exact hc ((vsign_behind_iff ht _).mpr (not_le.mp hx))
+  · trivial
+
+/-- **no output vertex of a selected face lies behind the plane by more than the tolerance**; the vertices of a
+    *cut* face are all on the non-negative side, and its new vertices have offset in `[0, tol]`. -/
+theorem C01_not_behind (tol eps : K) (ht : 0 ≤ tol) (o n : V3 K) (p : T3 (V3 K)) :
+    ∀ t ∈ sliceFacePos tol eps o n p true,
+      -tol ≤ offset o n t.a ∧ -tol ≤ offset o n t.b ∧ -tol ≤ offset o n t.c := by
+  intro t hmem
+  have hk := kind_offsets tol ht o n p true
+  unfold sliceFacePos at hmem
+  simp only at hk hmem
+  split at hmem
+  · rename_i hq
+    rw [hq] at hk
+    simp only [List.mem_singleton] at hmem
+    rw [hmem]
+    rcases hk with h | h
+    · exact absurd h (by decide)
+    · exact h
+  · simp at hmem
+  · rename_i k hq
+    rw [hq] at hk
+    obtain ⟨hA, hB, hC⟩ := hk
+    have hB0 : 0 < offset o n (p.get (k + 1)) := lt_of_le_of_lt ht hB
+    have hC0 : 0 < offset o n (p.get (k + 2)) := lt_of_le_of_lt ht hC
+    have hA0 : offset o n (p.get k) < 0 := by linarith
+    have x2 : offset o n ((intPoints eps o n p).get (k + 2)) = max (offset o n (p.get k)) 0 := by
+      rw [intPoints_get, show k + 2 + 1 = k + 3 from rfl, T3.get_add_three]
+      exact edge_offset_FY eps o n _ _ hC0 (by linarith)
+    have x0 : offset o n ((intPoints eps o n p).get k) = max (offset o n (p.get k)) 0 := by
+      rw [intPoints_get]
+      exact edge_offset_YF eps o n _ _ hB0 (by linarith)
+    have hm : max (offset o n (p.get k)) 0 = 0 := max_eq_right hA0.le
+    simp only [List.mem_cons, List.not_mem_nil, or_false] at hmem
+    rcases hmem with rfl | rfl
+    · refine ⟨by linarith, by linarith, ?_⟩
+      simp only; rw [x2, hm]; linarith
+    · refine ⟨by linarith, ?_, ?_⟩
+      · simp only; rw [x2, hm]; linarith
+      · simp only; rw [x0, hm]; linarith
+  · rename_i k hq
+    rw [hq] at hk
+    obtain ⟨hA, hB, hC⟩ := hk
+    have hA0 : 0 < offset o n (p.get k) := lt_of_le_of_lt ht hA
+    have x0 : offset o n ((intPoints eps o n p).get k) = max (offset o n (p.get (k + 1))) 0 := by
+      rw [intPoints_get]
+      exact edge_offset_FY eps o n _ _ hA0 (by linarith)
+    have x2 : offset o n ((intPoints eps o n p).get (k + 2)) = max (offset o n (p.get (k + 2))) 0 := by
+      rw [intPoints_get, show k + 2 + 1 = k + 3 from rfl, T3.get_add_three]
+      exact edge_offset_YF eps o n _ _ hA0 (by linarith)
+    simp only [List.mem_singleton] at hmem
+    rw [hmem]
+    refine ⟨by linarith, ?_, ?_⟩
+    · simp only; rw [x0]; have := le_max_right (offset o n (p.get (k + 1))) 0; linarith
+    · simp only; rw [x2]; have := le_max_right (offset o n (p.get (k + 2))) 0; linarith
+
+
+/-! ## 5. same orientation, and the pieces do not overlap (area bookkeeping) -/
+
+/-- `(b − a) × (c − a)`: twice the area vector of a positional triangle -/
+def crossOf (t : T3 (V3 K)) : V3 K := V3.cross (t.b - t.a) (t.c - t.a)
+
+theorem crossOf_rot (p : T3 (V3 K)) (k : Nat) :
+    crossOf ⟨p.get k, p.get (k + 1), p.get (k + 2)⟩ = crossOf p := by
+  rcases T3.get_cases p k with ⟨_, h0, h1, h2⟩ | ⟨_, h0, h1, h2⟩ | ⟨_, h0, h1, h2⟩ <;>
+    rw [h0, h1, h2] <;> unfold crossOf <;> ext <;> simp <;> ring
+
+/-- cut triangle `(A, A + r(B−A), C + t(A−C))` -/
+theorem cross_tri_piece (A B C : V3 K) (r t : K) :
+    crossOf ⟨A, V3.smul r (B - A) + A, V3.smul t (A - C) + C⟩ = V3.smul (r * (1 - t)) (crossOf ⟨A, B, C⟩) := by
+  unfold crossOf; ext <;> simp <;> ring
+
+/-- first half of a cut quad `(B, C, C + t(A−C))` -/
+theorem cross_quad_piece1 (A B C : V3 K) (t : K) :
+    crossOf ⟨B, C, V3.smul t (A - C) + C⟩ = V3.smul t (crossOf ⟨A, B, C⟩) := by
+  unfold crossOf; ext <;> simp <;> ring
+
+/-- second half of a cut quad `(B, C + t(A−C), A + u(B−A))` -/
+theorem cross_quad_piece2 (A B C : V3 K) (t u : K) :
+    crossOf ⟨B, V3.smul t (A - C) + C, V3.smul u (B - A) + A⟩ =
+      V3.smul ((1 - t) * (1 - u)) (crossOf ⟨A, B, C⟩) := by
+  unfold crossOf; ext <;> simp <;> ring
+
+/-- **same orientation**: every output triangle's area vector is a non-negative multiple `λ` of the input face's,
+    and the multiples add up to at most 1 (the pieces do not overlap: their areas add up to no more than the face). -/
+theorem C01_orientation (tol eps : K) (o n : V3 K) (p : T3 (V3 K)) (sel : Bool) :
+    ∃ lams : List K, lams.length = (sliceFacePos tol eps o n p sel).length ∧
+      (∀ l ∈ lams, 0 ≤ l) ∧ lams.sum ≤ 1 ∧
+      List.Forall₂ (fun t l => crossOf t = V3.smul l (crossOf p)) (sliceFacePos tol eps o n p sel) lams := by
+  unfold sliceFacePos
+  simp only
+  split
+  · exact ⟨[1], rfl, by simp, by simp, by
+      refine List.Forall₂.cons ?_ List.Forall₂.nil
+      ext <;> simp⟩
+  · exact ⟨[], rfl, by simp, by simp, List.Forall₂.nil⟩
+  · rename_i k _
+    -- A = behind corner, quad (B, C, X_CA, X_AB)
+    set A := p.get k
+    set B := p.get (k + 1)
+    set C := p.get (k + 2)
+    have e2 : (intPoints eps o n p).get (k + 2) = V3.smul (edgeParam eps o n C A) (A - C) + C := by
+      rw [intPoints_get, show k + 2 + 1 = k + 3 from rfl, T3.get_add_three, edgePoint_eq]
+    have e0 : (intPoints eps o n p).get k = V3.smul (edgeParam eps o n A B) (B - A) + A := by
+      rw [intPoints_get, edgePoint_eq]
+    obtain ⟨t0, t1⟩ := edgeParam_mem eps o n C A
+    obtain ⟨u0, u1⟩ := edgeParam_mem eps o n A B
+    generalize edgeParam eps o n C A = t at *
+    generalize edgeParam eps o n A B = u at *
+    have hrot : crossOf ⟨A, B, C⟩ = crossOf p := crossOf_rot p k
+    refine ⟨[t, (1 - t) * (1 - u)], rfl, ?_, ?_, ?_⟩
+    · intro l hl
+      simp only [List.mem_cons, List.not_mem_nil, or_false] at hl
+      rcases hl with rfl | rfl
+      · exact t0
+      · exact mul_nonneg (by linarith) (by linarith)
+    · simp only [List.sum_cons, List.sum_nil, add_zero]
+      nlinarith
+    · refine List.Forall₂.cons ?_ (List.Forall₂.cons ?_ List.Forall₂.nil)
+      · rw [e2, cross_quad_piece1, hrot]
+      · rw [e2, e0, cross_quad_piece2, hrot]
+  · rename_i k _
+    set A := p.get k
+    set B := p.get (k + 1)
+    set C := p.get (k + 2)
+    have e2 : (intPoints eps o n p).get (k + 2) = V3.smul (edgeParam eps o n C A) (A - C) + C := by
+      rw [intPoints_get, show k + 2 + 1 = k + 3 from rfl, T3.get_add_three, edgePoint_eq]
+    have e0 : (intPoints eps o n p).get k = V3.smul (edgeParam eps o n A B) (B - A) + A := by
+      rw [intPoints_get, edgePoint_eq]
+    obtain ⟨t0, t1⟩ := edgeParam_mem eps o n C A
+    obtain ⟨u0, u1⟩ := edgeParam_mem eps o n A B
+    generalize edgeParam eps o n C A = t at *
+    generalize edgeParam eps o n A B = u at *
+    have hrot : crossOf ⟨A, B, C⟩ = crossOf p := crossOf_rot p k
+    refine ⟨[u * (1 - t)], rfl, ?_, ?_, ?_⟩
+    · intro l hl
+      simp only [List.mem_singleton] at hl
+      rw [hl]; exact mul_nonneg u0 (by linarith)
+    · simp only [List.sum_cons, List.sum_nil, add_zero]
+      nlinarith
+    · refine List.Forall₂.cons ?_ List.Forall₂.nil
+      rw [e2, e0, cross_tri_piece, hrot]
+
+
+/-! ## 6. the output triangles tile the face clipped to the half-space -/
+
+theorem offset_combine (o n A B C : V3 K) (a b c : K) (h : a + b + c = 1) :
+    offset o n (V3.smul a A + V3.smul b B + V3.smul c C) =
+      a * offset o n A + b * offset o n B + c * offset o n C := by
+  simp only [offset, V3.dot_def, V3.add_x, V3.add_y, V3.add_z, V3.sub_x, V3.sub_y, V3.sub_z,
+    V3.smul_x, V3.smul_y, V3.smul_z]
+  linear_combination (n.x * o.x + n.y * o.y + n.z * o.z) * h
+
+theorem combine_tri (A B C : V3 K) (a b c r t : K) :
+    V3.smul a A + V3.smul b (V3.smul r (B - A) + A) + V3.smul c (V3.smul t (A - C) + C) =
+      V3.smul (a + b * (1 - r) + c * t) A + V3.smul (b * r) B + V3.smul (c * (1 - t)) C := by
+  ext <;> simp <;> ring
+
+theorem combine_quad1 (A B C : V3 K) (b c w t : K) :
+    V3.smul b B + V3.smul c C + V3.smul w (V3.smul t (A - C) + C) =
+      V3.smul (w * t) A + V3.smul b B + V3.smul (c + w * (1 - t)) C := by
+  ext <;> simp <;> ring
+
+theorem combine_quad2 (A B C : V3 K) (b w z t u : K) :
+    V3.smul b B + V3.smul w (V3.smul t (A - C) + C) + V3.smul z (V3.smul u (B - A) + A) =
+      V3.smul (w * t + z * (1 - u)) A + V3.smul (b + z * u) B + V3.smul (w * (1 - t)) C := by
+  ext <;> simp <;> ring
+
+/-- membership in the face does not depend on which corner is listed first -/
+theorem inFace_rot (p : T3 (V3 K)) (k : Nat) (x : V3 K) :
+    InFace ⟨p.get k, p.get (k + 1), p.get (k + 2)⟩ x ↔ InFace p x := by
+  rcases T3.get_cases p k with ⟨_, h0, h1, h2⟩ | ⟨_, h0, h1, h2⟩ | ⟨_, h0, h1, h2⟩ <;> rw [h0, h1, h2]
+  · constructor
+    · rintro ⟨a, b, c, ha, hb, hc, hs, rfl⟩
+      exact ⟨c, a, b, hc, ha, hb, by linarith, by ext <;> simp <;> ring⟩
+    · rintro ⟨a, b, c, ha, hb, hc, hs, rfl⟩
+      exact ⟨b, c, a, hb, hc, ha, by linarith, by ext <;> simp <;> ring⟩
+  · constructor
+    · rintro ⟨a, b, c, ha, hb, hc, hs, rfl⟩
+      exact ⟨b, c, a, hb, hc, ha, by linarith, by ext <;> simp <;> ring⟩
+    · rintro ⟨a, b, c, ha, hb, hc, hs, rfl⟩
+      exact ⟨c, a, b, hc, ha, hb, by linarith, by ext <;> simp <;> ring⟩
+
+/-- a convex combination of points of the face is a point of the face -/
+theorem inFace_trans (p t : T3 (V3 K)) (x : V3 K) (ha : InFace p t.a) (hb : InFace p t.b) (hc : InFace p t.c)
+    (hx : InFace t x) : InFace p x := by
+  obtain ⟨a1, a2, a3, h1, h2, h3, hs, ea⟩ := ha
+  obtain ⟨b1, b2, b3, i1, i2, i3, is, eb⟩ := hb
+  obtain ⟨c1, c2, c3, j1, j2, j3, js, ec⟩ := hc
+  obtain ⟨u, v, w, hu, hv, hw, huvw, ex⟩ := hx
+  refine ⟨u * a1 + v * b1 + w * c1, u * a2 + v * b2 + w * c2, u * a3 + v * b3 + w * c3,
+    by positivity, by positivity, by positivity, ?_, ?_⟩
+  · linear_combination u * hs + v * is + w * js + huvw
+  · rw [ex, ea, eb, ec]; ext <;> simp <;> ring
+
+/-- **triangle case** (one corner `A` in front, the others not): the cut triangle is exactly the set of points
+    `αA + βB + γC` of the face with `α·d_A + β·min(d_B,0) + γ·min(d_C,0) ≥ 0`. -/
+theorem C01_tiling_tri (tol eps : K) (ht : 0 ≤ tol) (o n : V3 K) (p : T3 (V3 K)) (k : Nat)
+    (hk : classifyFace (p.map fun v => vsign tol (offset o n v)) true = .tri k) (x : V3 K) :
+    let A := p.get k; let B := p.get (k + 1); let C := p.get (k + 2)
+    (∃ t ∈ sliceFacePos tol eps o n p true, InFace t x) ↔
+      ∃ α β γ : K, 0 ≤ α ∧ 0 ≤ β ∧ 0 ≤ γ ∧ α + β + γ = 1 ∧
+        x = V3.smul α A + V3.smul β B + V3.smul γ C ∧
+        0 ≤ α * offset o n A + β * min (offset o n B) 0 + γ * min (offset o n C) 0 := by
+  intro A B C
+  have hko := kind_offsets tol ht o n p true
+  simp only at hko
+  rw [hk] at hko
+  obtain ⟨hA, hB, hC⟩ := hko
+  have hA0 : 0 < offset o n A := lt_of_le_of_lt ht hA
+  have hBA : offset o n B < offset o n A := lt_of_le_of_lt hB hA
+  have hCA : offset o n C < offset o n A := lt_of_le_of_lt hC hA
+  have hout : sliceFacePos tol eps o n p true =
+      [⟨A, V3.smul (edgeParam eps o n A B) (B - A) + A, V3.smul (edgeParam eps o n C A) (A - C) + C⟩] := by
+    unfold sliceFacePos
+    simp only [hk]
+    rw [intPoints_get, intPoints_get, show k + 2 + 1 = k + 3 from rfl, T3.get_add_three, edgePoint_eq,
+      edgePoint_eq]
+  have hr : edgeParam eps o n A B = offset o n A / (offset o n A - min (offset o n B) 0) := by
+    rw [edgeParam_of_ne eps o n A B (ne_of_gt hBA)]; exact param_FY hA0 hBA
+  have htt : edgeParam eps o n C A = min (offset o n C) 0 / (min (offset o n C) 0 - offset o n A) := by
+    rw [edgeParam_of_ne eps o n C A (ne_of_lt hCA)]; exact param_YF hA0 hCA
+  obtain ⟨r0, r1⟩ := edgeParam_mem eps o n A B
+  obtain ⟨t0, t1⟩ := edgeParam_mem eps o n C A
+  rw [hout]
+  simp only [List.mem_singleton, exists_eq_left]
+  constructor
+  · rintro ⟨a, b, c, ha, hb, hc, hs, ex⟩
+    simp only at ex
+    rw [combine_tri] at ex
+    have hα : 0 ≤ a + b * (1 - edgeParam eps o n A B) + c * edgeParam eps o n C A := by
+      have : 0 ≤ b * (1 - edgeParam eps o n A B) := mul_nonneg hb (by linarith)
+      have : 0 ≤ c * edgeParam eps o n C A := mul_nonneg hc t0
+      linarith
+    have hβ : 0 ≤ b * edgeParam eps o n A B := mul_nonneg hb r0
+    have hγ : 0 ≤ c * (1 - edgeParam eps o n C A) := mul_nonneg hc (by linarith)
+    refine ⟨_, _, _, hα, hβ, hγ, by ring_nf; linarith, ex, ?_⟩
+    have key := (tri_case_tiles (offset o n A) (min (offset o n B) 0) (min (offset o n C) 0) _ _ _ hA0
+      (min_le_right _ _) (min_le_right _ _) hα hβ hγ (by ring_nf; linarith)).mp
+    apply key
+    rw [← hr, ← htt]
+    exact ⟨a, b, c, ha, hb, hc, hs, rfl, rfl, rfl⟩
+  · rintro ⟨α, β, γ, hα, hβ, hγ, hs, ex, hd⟩
+    have key := (tri_case_tiles (offset o n A) (min (offset o n B) 0) (min (offset o n C) 0) α β γ hA0
+      (min_le_right _ _) (min_le_right _ _) hα hβ hγ hs).mpr hd
+    rw [← hr, ← htt] at key
+    obtain ⟨a, b, c, ha, hb, hc, habc, e1, e2, e3⟩ := key
+    refine ⟨a, b, c, ha, hb, hc, habc, ?_⟩
+    simp only
+    rw [combine_tri, ex, e1, e2, e3]
+
+/-- **quad case** (one corner `A` behind, the other two in front): the two output triangles together are exactly
+    the set of points of the face with non-negative offset. -/
+theorem C01_tiling_quad (tol eps : K) (ht : 0 ≤ tol) (o n : V3 K) (p : T3 (V3 K)) (k : Nat)
+    (hk : classifyFace (p.map fun v => vsign tol (offset o n v)) true = .quad k) (x : V3 K) :
+    let A := p.get k; let B := p.get (k + 1); let C := p.get (k + 2)
+    (∃ t ∈ sliceFacePos tol eps o n p true, InFace t x) ↔
+      ∃ α β γ : K, 0 ≤ α ∧ 0 ≤ β ∧ 0 ≤ γ ∧ α + β + γ = 1 ∧
+        x = V3.smul α A + V3.smul β B + V3.smul γ C ∧
+        0 ≤ α * offset o n A + β * offset o n B + γ * offset o n C := by
+  intro A B C
+  have hko := kind_offsets tol ht o n p true
+  simp only at hko
+  rw [hk] at hko
+  obtain ⟨hA, hB, hC⟩ := hko
+  have hA0 : offset o n A < 0 := by linarith
+  have hB0 : 0 < offset o n B := lt_of_le_of_lt ht hB
+  have hC0 : 0 < offset o n C := lt_of_le_of_lt ht hC
+  have hout : sliceFacePos tol eps o n p true =
+      [⟨B, C, V3.smul (edgeParam eps o n C A) (A - C) + C⟩,
+       ⟨B, V3.smul (edgeParam eps o n C A) (A - C) + C, V3.smul (edgeParam eps o n A B) (B - A) + A⟩] := by
+    unfold sliceFacePos
+    simp only [hk]
+    rw [intPoints_get, intPoints_get, show k + 2 + 1 = k + 3 from rfl, T3.get_add_three, edgePoint_eq,
+      edgePoint_eq]
+  have htt : edgeParam eps o n C A = offset o n C / (offset o n C - offset o n A) := by
+    rw [edgeParam_of_ne eps o n C A (by intro h; linarith)]
+    exact (edgeParam_cross (Or.inl ⟨hC0, hA0⟩)).1
+  have hu : edgeParam eps o n A B = offset o n A / (offset o n A - offset o n B) := by
+    rw [edgeParam_of_ne eps o n A B (by intro h; linarith)]
+    exact (edgeParam_cross (Or.inr ⟨hA0, hB0⟩)).1
+  obtain ⟨t0, t1⟩ := edgeParam_mem eps o n C A
+  obtain ⟨u0, u1⟩ := edgeParam_mem eps o n A B
+  rw [hout]
+  simp only [List.mem_cons, List.not_mem_nil, or_false, exists_eq_or_imp, exists_eq_left]
+  constructor
+  · rintro (⟨b, c, w, hb, hc, hw, hs, ex⟩ | ⟨b, w, z, hb, hw, hz, hs, ex⟩)
+    · simp only at ex
+      rw [combine_quad1] at ex
+      have hα : 0 ≤ w * edgeParam eps o n C A := mul_nonneg hw t0
+      have hγ : 0 ≤ c + w * (1 - edgeParam eps o n C A) := by
+        have : 0 ≤ w * (1 - edgeParam eps o n C A) := mul_nonneg hw (by linarith)
+        linarith
+      refine ⟨_, _, _, hα, hb, hγ, by ring_nf; linarith, ex, ?_⟩
+      apply (quad_case_tiles (offset o n A) (offset o n B) (offset o n C) _ _ _ hA0 hB0 hC0 hα hb hγ
+        (by ring_nf; linarith)).mp
+      left
+      rw [← htt]
+      exact ⟨b, c, w, hb, hc, hw, hs, rfl, rfl, rfl⟩
+    · simp only at ex
+      rw [combine_quad2] at ex
+      have hα : 0 ≤ w * edgeParam eps o n C A + z * (1 - edgeParam eps o n A B) := by
+        have : 0 ≤ w * edgeParam eps o n C A := mul_nonneg hw t0
+        have : 0 ≤ z * (1 - edgeParam eps o n A B) := mul_nonneg hz (by linarith)
+        linarith
+      have hβ : 0 ≤ b + z * edgeParam eps o n A B := by
+        have : 0 ≤ z * edgeParam eps o n A B := mul_nonneg hz u0
+        linarith
+      have hγ : 0 ≤ w * (1 - edgeParam eps o n C A) := mul_nonneg hw (by linarith)
+      refine ⟨_, _, _, hα, hβ, hγ, by ring_nf; linarith, ex, ?_⟩
+      apply (quad_case_tiles (offset o n A) (offset o n B) (offset o n C) _ _ _ hA0 hB0 hC0 hα hβ hγ
+        (by ring_nf; linarith)).mp
+      right
+      rw [← htt, ← hu]
+      exact ⟨b, w, z, hb, hw, hz, hs, rfl, rfl, rfl⟩
+  · rintro ⟨α, β, γ, hα, hβ, hγ, hs, ex, hd⟩
+    have key := (quad_case_tiles (offset o n A) (offset o n B) (offset o n C) α β γ hA0 hB0 hC0 hα hβ hγ
+      hs).mpr hd
+    rw [← htt, ← hu] at key
+    rcases key with ⟨b, c, w, hb, hc, hw, hsum, e1, e2, e3⟩ | ⟨b, w, z, hb, hw, hz, hsum, e1, e2, e3⟩
+    · left
+      refine ⟨b, c, w, hb, hc, hw, hsum, ?_⟩
+      simp only
+      rw [combine_quad1, ex, e1, e2, e3]
+    · right
+      refine ⟨b, w, z, hb, hw, hz, hsum, ?_⟩
+      simp only
+      rw [combine_quad2, ex, e1, e2, e3]
+
+
+/-- every point of every output triangle is a point of the input face, and (selected faces) not behind the plane
+    by more than the tolerance. -/
+theorem C01_within_halfspace (tol eps : K) (ht : 0 ≤ tol) (o n : V3 K) (p : T3 (V3 K)) :
+    ∀ t ∈ sliceFacePos tol eps o n p true, ∀ x, InFace t x → InFace p x ∧ -tol ≤ offset o n x := by
+  intro t ht' x hx
+  obtain ⟨fa, fb, fc⟩ := C01_out_in_face tol eps o n p true t ht'
+  obtain ⟨da, db, dc⟩ := C01_not_behind tol eps ht o n p t ht'
+  refine ⟨inFace_trans p t x fa fb fc hx, ?_⟩
+  obtain ⟨a, b, c, ha, hb, hc, hs, rfl⟩ := hx
+  rw [offset_combine o n _ _ _ a b c hs]
+  nlinarith [mul_nonneg ha (by linarith : (0:K) ≤ offset o n t.a + tol),
+    mul_nonneg hb (by linarith : (0:K) ≤ offset o n t.b + tol),
+    mul_nonneg hc (by linarith : (0:K) ≤ offset o n t.c + tol)]
+
+/-- **the output covers everything in front**: every point of a selected face whose offset exceeds the tolerance
+    lies in one of the output triangles.  Together with `C01_within_halfspace`:
+    `{x ∈ face | d(x) > tol} ⊆ ⋃ outputs ⊆ {x ∈ face | d(x) ≥ −tol}`. -/
+theorem C01_covers_front (tol eps : K) (ht : 0 ≤ tol) (o n : V3 K) (p : T3 (V3 K)) (x : V3 K)
+    (hx : InFace p x) (hd : tol < offset o n x) :
+    ∃ t ∈ sliceFacePos tol eps o n p true, InFace t x := by
+  have hko := kind_offsets tol ht o n p true
+  simp only at hko
+  cases hkind : classifyFace (p.map fun v => vsign tol (offset o n v)) true with
+  | keep =>
+    refine ⟨p, ?_, hx⟩
+    unfold sliceFacePos; simp only [hkind, List.mem_singleton]
+  | drop =>
+    exfalso
+    have tbl := C01_case_table tol (p.map (offset o n)) true
+    have hmap : (p.map (offset o n)).map (vsign tol) = p.map fun v => vsign tol (offset o n v) := rfl
+    rw [hmap] at tbl
+    obtain ⟨_, hdrop, _, _⟩ := tbl
+    obtain ⟨_, _, hnf⟩ := hdrop.mp hkind
+    simp only [frontS, T3.map, not_or] at hnf
+    obtain ⟨na, nb, nc⟩ := hnf
+    have ha : offset o n p.a ≤ tol := by by_contra h; exact na ((vsign_front_iff tol _).mpr (not_le.mp h))
+    have hb : offset o n p.b ≤ tol := by by_contra h; exact nb ((vsign_front_iff tol _).mpr (not_le.mp h))
+    have hc : offset o n p.c ≤ tol := by by_contra h; exact nc ((vsign_front_iff tol _).mpr (not_le.mp h))
+    obtain ⟨a, b, c, h0a, h0b, h0c, hs, rfl⟩ := hx
+    rw [offset_combine o n _ _ _ a b c hs] at hd
+    nlinarith [mul_nonneg h0a (by linarith : (0:K) ≤ tol - offset o n p.a),
+      mul_nonneg h0b (by linarith : (0:K) ≤ tol - offset o n p.b),
+      mul_nonneg h0c (by linarith : (0:K) ≤ tol - offset o n p.c)]
+  | quad k =>
+    obtain ⟨α, β, γ, hα, hβ, hγ, hs, rfl⟩ := (inFace_rot p k x).mpr hx
+    apply (C01_tiling_quad tol eps ht o n p k hkind _).mpr
+    refine ⟨α, β, γ, hα, hβ, hγ, hs, rfl, ?_⟩
+    rw [offset_combine o n _ _ _ α β γ hs] at hd
+    linarith
+  | tri k =>
+    rw [hkind] at hko
+    obtain ⟨hA, hB, hC⟩ := hko
+    obtain ⟨α, β, γ, hα, hβ, hγ, hs, rfl⟩ := (inFace_rot p k x).mpr hx
+    apply (C01_tiling_tri tol eps ht o n p k hkind _).mpr
+    refine ⟨α, β, γ, hα, hβ, hγ, hs, rfl, ?_⟩
+    rw [offset_combine o n _ _ _ α β γ hs] at hd
+    -- capping an on-corner's offset at 0 lowers it by at most `tol`
+    have cB : offset o n (p.get (k + 1)) - tol ≤ min (offset o n (p.get (k + 1))) 0 := by
+      apply le_min <;> linarith
+    have cC : offset o n (p.get (k + 2)) - tol ≤ min (offset o n (p.get (k + 2))) 0 := by
+      apply le_min <;> linarith
+    have hβ1 : β ≤ 1 := by linarith
+    nlinarith [mul_le_mul_of_nonneg_left cB hβ, mul_le_mul_of_nonneg_left cC hγ, mul_nonneg hα ht]
+
+/-- **exact tiling**: when every corner that is not in front has offset `≤ 0` (in particular when the on-plane
+    corners are exactly on the plane, and always for `tol = 0`), the output triangles of a cut face are exactly the
+    points of the face with non-negative offset: the face clipped to the half-space. -/
+theorem C01_tiling_exact (tol eps : K) (ht : 0 ≤ tol) (o n : V3 K) (p : T3 (V3 K))
+    (hcut : isCut (classifyFace (p.map fun v => vsign tol (offset o n v)) true) = true)
+    (hon : ∀ i, offset o n (p.get i) ≤ tol → offset o n (p.get i) ≤ 0) (x : V3 K) :
+    (∃ t ∈ sliceFacePos tol eps o n p true, InFace t x) ↔ (InFace p x ∧ 0 ≤ offset o n x) := by
+  have hko := kind_offsets tol ht o n p true
+  simp only at hko
+  cases hkind : classifyFace (p.map fun v => vsign tol (offset o n v)) true with
+  | keep => rw [hkind] at hcut; simp [isCut] at hcut
+  | drop => rw [hkind] at hcut; simp [isCut] at hcut
+  | quad k =>
+    have hq := C01_tiling_quad tol eps ht o n p k hkind x
+    simp only at hq
+    rw [hq]
+    constructor
+    · rintro ⟨α, β, γ, hα, hβ, hγ, hs, rfl, hd⟩
+      refine ⟨(inFace_rot p k _).mp ⟨α, β, γ, hα, hβ, hγ, hs, rfl⟩, ?_⟩
+      rw [offset_combine o n _ _ _ α β γ hs]; exact hd
+    · rintro ⟨hx, hd⟩
+      obtain ⟨α, β, γ, hα, hβ, hγ, hs, rfl⟩ := (inFace_rot p k x).mpr hx
+      refine ⟨α, β, γ, hα, hβ, hγ, hs, rfl, ?_⟩
+      rw [offset_combine o n _ _ _ α β γ hs] at hd; exact hd
+  | tri k =>
+    rw [hkind] at hko
+    obtain ⟨hA, hB, hC⟩ := hko
+    have mB : min (offset o n (p.get (k + 1))) 0 = offset o n (p.get (k + 1)) := min_eq_left (hon _ hB)
+    have mC : min (offset o n (p.get (k + 2))) 0 = offset o n (p.get (k + 2)) := min_eq_left (hon _ hC)
+    have hq := C01_tiling_tri tol eps ht o n p k hkind x
+    simp only at hq
+    rw [hq]
+    simp only [mB, mC]
+    constructor
+    · rintro ⟨α, β, γ, hα, hβ, hγ, hs, rfl, hd⟩
+      refine ⟨(inFace_rot p k _).mp ⟨α, β, γ, hα, hβ, hγ, hs, rfl⟩, ?_⟩
+      rw [offset_combine o n _ _ _ α β γ hs]; exact hd
+    · rintro ⟨hx, hd⟩
+      obtain ⟨α, β, γ, hα, hβ, hγ, hs, rfl⟩ := (inFace_rot p k x).mpr hx
+      refine ⟨α, β, γ, hα, hβ, hγ, hs, rfl, ?_⟩
+      rw [offset_combine o n _ _ _ α β γ hs] at hd; exact hd
+
+/-! ## 7. non-vacuity: a concrete face of each kind -/
+
+example : sliceFacePos (K := ℚ) (1/100000000) (1/1000000000000) ⟨0,0,0⟩ ⟨0,0,1⟩
+    ⟨⟨0,0,1⟩, ⟨1,0,-1⟩, ⟨0,1,-1⟩⟩ true = [⟨⟨0,0,1⟩, ⟨1/2,0,0⟩, ⟨0,1/2,0⟩⟩] := by
+  decide +kernel
+
+example : (sliceFacePos (K := ℚ) (1/100000000) (1/1000000000000) ⟨0,0,0⟩ ⟨0,0,1⟩
+    ⟨⟨0,0,-1⟩, ⟨1,0,1⟩, ⟨0,1,1⟩⟩ true).length = 2 := by
+  decide +kernel
+
 end PW.C01
